@@ -74,8 +74,10 @@ func compare(u *ops.Universe, op ops.Op, a, b ops.Out, emptyRepo bool) string {
 		}
 		return ""
 	}
-	if op.K == "getBlobRange" && (op.O0 < 0 || (op.O1 >= 0 && op.O1 <= op.O0)) {
-		// degenerate range: HTTP cannot express it; only "no wrong bytes" is required
+	if op.K == "getBlobRange" && (op.O0 < 0 || (op.O1 >= 0 && op.O1 <= op.O0) || op.O0 >= int64(len(u.BlobBytes(op.B%len(u.Blobs))))) {
+		// degenerate range (selects no byte: negative, empty, or starting at or after the end of
+		// the blob): HTTP cannot express it - there is no valid Content-Range for an empty
+		// selection; only "no wrong bytes" is required
 		if a.Err == "" && b.Err == "" && !bytes.Equal(a.Data, b.Data) {
 			return fmt.Sprintf("degenerate range returned different bytes: %d vs %d", len(a.Data), len(b.Data))
 		}
